@@ -817,6 +817,18 @@ func (f *frame) transCall(x *CCall, env *Env) TV {
 			return TV{T: f.bytesToStr(env.st, v.T), S: "Str", Ty: types.Typ[types.String]}
 		}
 		cfail("string() of sort %s", v.S)
+	case "implements":
+		// implements(x, T): the dynamic type of interface value x implements interface type T
+		if len(x.Args) != 2 {
+			cfail("implements needs a value and an interface type")
+		}
+		v := arg(0)
+		ty := f.resolveType(x.Args[1].String(), env.pkg)
+		it, ok := ty.Underlying().(*types.Interface)
+		if !ok || v.S != "Iface" {
+			cfail("implements(x, T): x must be an interface value and T an interface type")
+		}
+		return TV{T: f.implements(v.T, ty, it), S: "Bool"}
 	case "cur":
 		// cur(e): in e a reassigned parameter denotes its current value
 		need(1)
